@@ -31,6 +31,7 @@ def rules(ctx):
     c151(ctx)
     c152(ctx)
     c153(ctx)
+    c155(ctx)
 
 
 def pack_table(f):
@@ -338,3 +339,72 @@ def c153(ctx):
             rs = any(s["k"] == "call" and s["callee"].endswith("::contains") for _bb, lab, ss in K.guards(f, p) for s in ss if lab == "sw:0")
             ctx.check(R, f, "rejects", lo and hi and rs, "Ok only if >= FIRST, <= LAST and outside the reserved range",
                       "FieldNumber::new no longer rejects 0 / too large / reserved (lo=%s hi=%s reserved=%s)" % (lo, hi, rs), pt=p)
+
+
+CONCRETE_PACK = re.compile(r"^<(.+) as buffertk::Packable>::(pack_sz|pack)$")
+
+
+def _concrete(f, meth):
+    out = set()
+    for _b, t in f.calls():
+        m = CONCRETE_PACK.match(callee_skey(t) or "")
+        if m and m.group(2) == meth:
+            out.add(m.group(1))
+    return out
+
+
+def varint_len(v):
+    n = 1
+    while v >= 0x80:
+        v >>= 7
+        n += 1
+    return n
+
+
+def c155(ctx):
+    """`stack_pack` allocates pack_sz() bytes and pack() fills them; a size that disagrees with what pack writes leaves a gap byte or
+    overruns.  Sibling rule over every hand-written Packable impl: each concrete component type whose `pack` the impl's pack calls must
+    be sized by the same type's `pack_sz` in the impl's pack_sz.  Where an impl sizes a component itself instead (no delegation), the
+    size function is tabulated exactly (piecewise-constant class) and compared with the varint length of what pack writes; anything
+    outside that class is reported as undecidable by this rule rather than passed."""
+    from blue import pwc
+    R = "C15.5"
+    ctx.declare(R, "pack_sz sizes exactly the components pack writes")
+    impls = {}
+    for f in ctx.prog.fns.values():
+        if f.impl_trait and f.impl_trait.endswith("buffertk::Packable") and f.name in ("pack_sz", "pack"):
+            impls.setdefault((f.crate, f.impl_self), {})[f.name] = f
+    n = 0
+    for (crate, self_), d in sorted(impls.items(), key=str):
+        if "pack" not in d or "pack_sz" not in d:
+            continue
+        wr, sz = _concrete(d["pack"], "pack"), _concrete(d["pack_sz"], "pack_sz")
+        if not wr:
+            continue
+        n += 1
+        if wr <= sz:
+            ctx.ok(R, d["pack_sz"], "pack writes %s; pack_sz asks each for its size" % sorted(wr), [])
+            continue
+        missing = sorted(wr - sz)
+        if self_ == "prototk::Tag" and missing == ["buffertk::varint::v64"]:
+            try:
+                tab = pwc.tabulate(d["pack_sz"], input_call=r"prototk::FieldNumber::get$|prototk::FieldNumber as core::convert::Into")
+            except pwc.NotInClass as e:
+                ctx.check(R, d["pack_sz"], "tag-size", False, "", "Tag::pack_sz no longer delegates to the varint it packs and cannot be tabulated (%s)" % e)
+                continue
+            bad = None
+            for lo, hi, v in tab:
+                lo2, hi2 = max(lo, 1), min(hi, (1 << 29) - 1)
+                if lo2 > hi2:
+                    continue
+                # the varint length of (f << 3 | w) is monotone in f: constant on [lo2, hi2] iff equal at both ends
+                if not (isinstance(v, int) and v == varint_len(lo2 << 3) == varint_len((hi2 << 3) | 7)):
+                    bad = (lo2, hi2, v)
+                    break
+            ctx.check(R, d["pack_sz"], "tag-size", bad is None, "Tag::pack_sz equals the varint length of (field_number << 3 | wire type) on every valid field number (tabulated)",
+                      "Tag::pack_sz returns %s for field numbers %s..=%s, but the tag pack() writes takes %s..%s bytes there: the packed buffer gets a gap or a short field"
+                      % ((bad[2], bad[0], bad[1], varint_len(bad[0] << 3), varint_len((bad[1] << 3) | 7)) if bad else ("", "", "", "", "")))
+            continue
+        ctx.check(R, d["pack_sz"], "sizes-what-it-writes", False, "",
+                  "pack of %s writes %s through their own pack, but pack_sz does not ask them for their size" % (self_, missing))
+    ctx.floor(R, "Packable impls that delegate to concrete component types", n, 4)
